@@ -25,9 +25,18 @@
                                 of the C09 theorem; WF is guaranteed by C01's `mk?` theorem)
       functor := <n> (name nats)ⁿ <m> (box arrspec)ᵐ     arrspec := A data | S nin nout nats
       expr    := the core expression language (Driver/Codec.lean)
+  functors on diagrams with bubbles (Model/TensorBubble.lean):
+    bfeval <functor> <bubbles> <expr>    `Functor.__call__` incl. the `Bubble` branch
+    bflayers <functor> <bubbles> <expr>  the reference semantics `BFunctor.ref` (layer-by-layer,
+                                         a bubble = entrywise image of the composite of its inside)
+    bfgood <bubbles> <expr>              1 iff the hypotheses of `functor_eval_eq_layers_bubbles`
+                                         hold (`goodTableB`, genuine special boxes of `expr`)
+      bubbles := <k> (box efun expr)ᵏ    the boxes of the request that are `Bubble` objects, with
+                                         their function and the diagram inside; fuel = k + 1
+      efun    := sq | not | conj2 | relu | half | add re im | tab <n> (re im re im)ⁿ re im
 -/
 import Driver.Codec
-import Model.Tensor
+import Model.TensorBubble
 
 namespace DV.TensorCmd
 open DV DV.Codec
@@ -148,6 +157,60 @@ def functor : P (TFunctor G) := do
       | some p => p.2
       | none => ⟨[0], #[]⟩ }
 
+/-! bubbles -/
+
+/-- The entrywise functions the harness can name; the model (`BubbleSpec.func`) takes ANY
+    function `R → R`, these are the ones executed at ℤ[i].  Python counterparts in
+    harness/tbubblelib.py (`EFUNS`). -/
+inductive EFun where
+  | sq                                   -- lambda x: x * x
+  | notx                                 -- the default: lambda x: int(not x)
+  | conj2                                -- lambda x: 2 * numpy.conjugate(x)
+  | relu                                 -- lambda x: x if x.real > 0 else 0
+  | half                                 -- lambda x: complex(x.real // 2, x.imag // 2) if x else 0
+  | add (c : G)                          -- lambda x: x + c
+  | table (pairs : List (G × G)) (default : G)   -- lambda x: {..}.get(complex(x), default)
+
+def EFun.eval : EFun → G → G
+  | .sq, x => x * x
+  | .notx, x => if x = 0 then 1 else 0
+  | .conj2, x => ⟨2 * x.re, -(2 * x.im)⟩
+  | .relu, x => if x.re > 0 then x else 0
+  | .half, x => ⟨Int.fdiv x.re 2, Int.fdiv x.im 2⟩
+  | .add c, x => x + c
+  | .table pairs dflt, x =>
+    match pairs.find? (fun p => p.1 == x) with
+    | some p => p.2
+    | none => dflt
+
+def efun : P EFun := do
+  let t ← tok
+  match t with
+  | "sq" => pure .sq
+  | "not" => pure .notx
+  | "conj2" => pure .conj2
+  | "relu" => pure .relu
+  | "half" => pure .half
+  | "add" => do pure (.add (← gauss))
+  | "tab" => do
+    let ps ← many (do let a ← gauss; let b ← gauss; pure (a, b))
+    let d ← gauss
+    pure (.table ps d)
+  | _ => throw s!"bad efun {t}"
+
+def bubbles : P (List (Box × EFun × Expr)) :=
+  many (do let b ← box; let f ← efun; let e ← expr; pure (b, f, e))
+
+/-- Evaluate the insides (core op language); the first failure is the answer. -/
+def bubbleTable : List (Box × EFun × Expr) → Except Err (List (Box × BubbleSpec G))
+  | [] => .ok []
+  | (b, f, e) :: rest =>
+    match e.eval with
+    | .error er => .error er
+    | .ok d => match bubbleTable rest with
+      | .error er => .error er
+      | .ok tab => .ok ((b, ⟨f.eval, d⟩) :: tab)
+
 def run {α} (p : P α) (rest : List String) (k : α → String) : String :=
   match p.run rest with
   | .error m => "bad " ++ m
@@ -158,6 +221,12 @@ def onDiagram (e : Expr) (k : Diagram → Except Err (Tensor G)) : String :=
   match e.eval with
   | .error er => "err " ++ toString er
   | .ok d => pTResult (k d)
+
+def onBubbles (f : TFunctor G) (bs : List (Box × EFun × Expr)) (e : Expr)
+    (k : BFunctor G → Nat → Diagram → Except Err (Tensor G)) : String :=
+  match bubbleTable bs with
+  | .error er => "err " ++ toString er
+  | .ok tab => onDiagram e (k (BFunctor.ofTable f tab) (bs.length + 1))
 
 def handle (cmd : String) (rest : List String) : Option String :=
   match cmd with
@@ -183,6 +252,19 @@ def handle (cmd : String) (rest : List String) : Option String :=
       match e.eval with
       | .error er => "err " ++ toString er
       | .ok d => if d.boxes.all TFunctor.genuineB then "ok 1" else "ok 0"
+  | "bfeval" => some <|
+      run (do let f ← functor; let bs ← bubbles; let e ← expr; pure (f, bs, e)) rest
+      fun (f, bs, e) => onBubbles f bs e (fun F n d => F.call n d)
+  | "bflayers" => some <|
+      run (do let f ← functor; let bs ← bubbles; let e ← expr; pure (f, bs, e)) rest
+      fun (f, bs, e) => onBubbles f bs e (fun F n d => F.ref n d)
+  | "bfgood" => some <| run (do let bs ← bubbles; let e ← expr; pure (bs, e)) rest
+      fun (bs, e) =>
+        match bubbleTable bs, e.eval with
+        | .error er, _ => "err " ++ toString er
+        | _, .error er => "err " ++ toString er
+        | .ok tab, .ok d =>
+          if BFunctor.goodTableB tab && d.boxes.all TFunctor.genuineB then "ok 1" else "ok 0"
   | "fbox" => some <| run (do let f ← functor; let b ← box; pure (f, b)) rest
       fun (f, b) => pTResult (f.box b)
   | "fty" => some <| run (do let f ← functor; let t ← ty; pure (f, t)) rest
